@@ -161,7 +161,17 @@ def run(ctx):
                 filters.append((ch.via[1].source_name(), ch))
     fw = [c for s, c in filters if s == "self.walls"]
     fs = [c for s, c in filters if s == "self.shades"]
-    ctx.require(len(fw) == 1 and len(fs) == 1, "collect_occluders: wall/shade filters not found (%s)" % [s for s, c in filters])
+    if not (len(fw) == 1 and len(fs) == 1):
+        # not the filter(..).map(Occluder {..}) form: fall back to the necessary conditions that can be decided for any construction site
+        from .. import support as S
+        res = S.occluder_polygons_nonempty(prog)
+        nbad = 0
+        for ok, loc, g, disp, why in res:
+            if not ok:
+                nbad += 1
+                ctx.violation("c12.occluders", "c12.occluders|nonempty|%s|%s" % (disp, g), "occluders are not restricted to non-empty polygons: %s" % why, loc)
+        ctx.require(nbad > 0, "collect_occluders: wall/shade filters not found (%s), membership predicates cannot be evaluated" % [s for s, c in filters])
+        return
 
     def geom_atoms(bnd, pos, empty):
         def atom(n):
